@@ -336,13 +336,13 @@ theorem dispatch_eoc (s : St) (c1 c2 : Nat) (f2 : Bool) (h1 : c1 &&& 7 = 4 ∨ c
   rcases h1 with h1 | h1 <;> simp only [this, if_false, h1, h3]
 
 theorem dispatch_edm (s : St) (c1 c2 : Nat) (f2 : Bool) (h1 : c1 &&& 7 = 4 ∨ c1 &&& 7 = 5) (h2 : c2 < 0x40) (h3 : c2 &&& 15 = 12) :
-    captionCommand s c1 c2 f2 = s.modCh (cmdChan s c1 f2) eraseDisplayed := by
+    captionCommand s c1 c2 f2 = s.modCh (edmChan (cmdChan s c1 f2)) eraseDisplayed := by
   unfold captionCommand cmdChan
   have : ¬ c2 ≥ 0x40 := by omega
   rcases h1 with h1 | h1 <;> simp only [this, if_false, h1, h3]
 
 theorem dispatch_enm (s : St) (c1 c2 : Nat) (f2 : Bool) (h1 : c1 &&& 7 = 4 ∨ c1 &&& 7 = 5) (h2 : c2 < 0x40) (h3 : c2 &&& 15 = 14) :
-    captionCommand s c1 c2 f2 = s.modCh (cmdChan s c1 f2) eraseNonDisplayed := by
+    captionCommand s c1 c2 f2 = s.modCh (edmChan (cmdChan s c1 f2)) eraseNonDisplayed := by
   unfold captionCommand cmdChan
   have : ¬ c2 ≥ 0x40 := by omega
   rcases h1 with h1 | h1 <;> simp only [this, if_false, h1, h3]
